@@ -104,6 +104,12 @@ func certFor(kind string) *KeyPair {
 	switch kind {
 	case "good":
 		return &p.SrvGood
+	case "good-name":
+		return &p.SrvGoodName
+	case "good-ip":
+		return &p.SrvGoodIP
+	case "good-domain":
+		return &p.SrvGoodDom
 	case "wronghost":
 		return &p.SrvWrongHost
 	case "untrusted":
